@@ -4,7 +4,9 @@ CONSTANTS
   BaseSet <- AllBases
   RunCfgSeq <- RunsCross
   Prods <- KeyProds
-  KISet <- KINamed
+  KISet <- KICross
+  EnvWhereSet <- EnvWheres
+  Deviations = {}
   EmitMin = 2
   EmitFrom = 9
   EmitMod = 1
